@@ -1,18 +1,200 @@
 // Unit c08_authorization -- property C08 "Protected calls succeed exactly when the access rule is satisfied"
 // Real code: radix-engine/src/system/system_modules/auth/authorization.rs
-//   Authorization::{verify_proof_rule, verify_auth_rule, check_authorization_against_access_rule}
+//   Authorization::{verify_proof_rule, verify_auth_rule, check_authorization_against_access_rule,
+//                   check_authorization_against_role_key_internal, check_authorization_against_role_list}
+// plus the helpers the self-role rule is built from (rule!/composite_requirement! macros, require,
+// global_caller, the From/Into conversions, ModuleRoleKey::new, RoleKey::new, PartitionNumber::at_offset,
+// KeyValueEntrySubstate::into_value, FieldSubstate::into_payload).
 // Rule types extracted from radix-engine-interface/src/blueprints/resource/proof_rule.rs.
 use vstd::prelude::*;
+
+// the real macros; `#[macro_export]` (dropped by rewrite R2) is put back so that `$crate::..!` resolves
+#[macro_export]
+/*@item radix-engine-interface/src/macros.rs :: macro composite_requirement
+@*/
+#[macro_export]
+/*@item radix-engine-interface/src/macros.rs :: macro rule
+@*/
+// `$crate::blueprints::resource::X` in the macros above
+pub mod blueprints { pub mod resource { pub use crate::unit::*; } }
+
 verus! {
 /*@include shims/rt.rs @*/
+/*@include shims/string_convert.rs @*/
 /*@include shims/auth_env.rs @*/
 
+// =================================================================================================
+// ENVIRONMENT that depends on the extracted types: the kernel API trait with its ASSUMED contracts,
+// the two auth-zone walkers (ASSUMED contracts), versioned payload wrappers, std-derived impls.
+// =================================================================================================
 pub mod env {
     use vstd::prelude::*;
+    use vstd::std_specs::convert::*;
+    use super::auth_env::*;
+    use super::auth_env::Decimal;
     use super::unit::*;
+
     // `#[derive(Clone)]` on the recursive enum is rejected by Verus (cyclic trait dependency
     // through Vec<Self>); the derived impl is std-generated code, not under contract.
     impl Clone for CompositeRequirement {
+        #[verifier::external_body]
+        fn clone(&self) -> (r: Self) ensures r == *self { unimplemented!() }
+    }
+
+    pub open spec fn key_view(k: SubstateKey) -> SubKey {
+        match k {
+            SubstateKey::Field(f) => SubKey::Field(f),
+            SubstateKey::Map(m) => SubKey::Map(m@),
+            SubstateKey::Sorted(s) => SubKey::Sorted(s.0@, s.1@),
+        }
+    }
+
+    /// radix_engine::kernel::kernel_api::KernelSubstateApi<L> (the four methods used), with ASSUMED
+    /// contracts over the ghost `ApiState`:
+    ///  open  : Ok(h) => h is a fresh handle, now open at exactly (node, partition, key); nothing else changes
+    ///  read  : Ok(v) => h is open and v is the substate at its location; nothing changes
+    ///  close : Ok    => h is no longer open; nothing else changes
+    ///  Err(e) from any of them => e is appended to the error history, the environment is unchanged
+    pub trait KernelSubstateApi<L> {
+        spec fn st(&self) -> ApiState;
+
+        fn kernel_open_substate_with_default<F: FnOnce() -> IndexedScryptoValue>(
+            &mut self,
+            node_id: &NodeId,
+            partition_num: PartitionNumber,
+            substate_key: &SubstateKey,
+            flags: LockFlags,
+            default: Option<F>,
+            lock_data: L,
+        ) -> (r: Result<SubstateHandle, RuntimeError>)
+            ensures
+                r matches Ok(h) ==> !old(self).st().handles.contains_key(h) && final(self).st() == (ApiState {
+                    handles: old(self).st().handles.insert(h, Loc { node: *node_id, partition: partition_num.0, key: key_view(*substate_key) }),
+                    ..old(self).st() }),
+                r is Err ==> ok_or_fault(old(self).st(), final(self).st(), r);
+
+        fn kernel_open_substate(
+            &mut self,
+            node_id: &NodeId,
+            partition_num: PartitionNumber,
+            substate_key: &SubstateKey,
+            flags: LockFlags,
+            lock_data: L,
+        ) -> (r: Result<SubstateHandle, RuntimeError>)
+            ensures
+                r matches Ok(h) ==> !old(self).st().handles.contains_key(h) && final(self).st() == (ApiState {
+                    handles: old(self).st().handles.insert(h, Loc { node: *node_id, partition: partition_num.0, key: key_view(*substate_key) }),
+                    ..old(self).st() }),
+                r is Err ==> ok_or_fault(old(self).st(), final(self).st(), r);
+
+        fn kernel_close_substate(&mut self, lock_handle: SubstateHandle) -> (r: Result<(), RuntimeError>)
+            ensures
+                r is Ok ==> final(self).st() == (ApiState { handles: old(self).st().handles.remove(lock_handle), ..old(self).st() }),
+                r is Err ==> ok_or_fault(old(self).st(), final(self).st(), r);
+
+        fn kernel_read_substate(&mut self, lock_handle: SubstateHandle) -> (r: Result<&IndexedScryptoValue, RuntimeError>)
+            ensures
+                ok_or_fault(old(self).st(), final(self).st(), r),
+                r matches Ok(v) ==> old(self).st().handles.contains_key(lock_handle)
+                    && *v == old(self).st().env.substate(old(self).st().handles[lock_handle]);
+    }
+
+    /// ASSUMED contracts of the two callees that walk the auth zone substates (not under contract
+    /// here: they go through `impl Fn` closures and kernel substate reads).  Signatures identical
+    /// to the real private functions of `impl Authorization`.
+    impl Authorization {
+        #[verifier::external_body]
+        pub fn auth_zone_stack_matches_rule<
+            Y: SystemObjectApi<RuntimeError> + KernelSubstateApi<L>,
+            L: Default,
+        >(
+            auth_zone: &NodeId,
+            resource_rule: &ResourceOrNonFungible,
+            api: &mut Y,
+        ) -> (ret: Result<bool, RuntimeError>)
+            ensures
+                ok_or_fault(old(api).st(), final(api).st(), ret),
+                ret matches Ok(b) ==> b == req_sat(old(api).st().env, *auth_zone, *resource_rule),
+        { unimplemented!() }
+
+        #[verifier::external_body]
+        pub fn auth_zone_stack_has_amount<
+            Y: SystemObjectApi<RuntimeError> + KernelSubstateApi<L>,
+            L: Default,
+        >(
+            auth_zone: &NodeId,
+            resource: &ResourceAddress,
+            amount: Decimal,
+            api: &mut Y,
+        ) -> (ret: Result<bool, RuntimeError>)
+            ensures
+                ok_or_fault(old(api).st(), final(api).st(), ret),
+                ret matches Ok(b) ==> b == old(api).st().env.shows_amount(*auth_zone, *resource, amount),
+        { unimplemented!() }
+    }
+
+    // ---- the global-caller badge ---------------------------------------------------------------------
+    /// ghost: the non-fungible id `hash(scrypto_encode(global_caller))` under GLOBAL_CALLER_RESOURCE
+    pub uninterp spec fn global_caller_badge_spec(g: GlobalCaller) -> NonFungibleGlobalId;
+    impl NonFungibleGlobalId {
+        /// radix-common NonFungibleGlobalId::global_caller_badge (hashing + encoding: not under contract)
+        #[verifier::external_body]
+        pub fn global_caller_badge<T: Into<GlobalCaller>>(global_caller: T) -> (ret: Self)
+            ensures exists|g: GlobalCaller| call_ensures(T::into, (global_caller,), g) && ret == global_caller_badge_spec(g)
+        { unimplemented!() }
+    }
+
+    // vstd's specification of `From::from` is parameterised by FromSpecImpl; the conversions below
+    // carry their own `ensures` instead
+    impl<T: Into<GlobalAddress>> FromSpecImpl<T> for GlobalCaller {
+        open spec fn obeys_from_spec() -> bool { false }
+        open spec fn from_spec(v: T) -> Self { arbitrary() }
+    }
+    impl FromSpecImpl<ResourceOrNonFungible> for CompositeRequirement {
+        open spec fn obeys_from_spec() -> bool { false }
+        open spec fn from_spec(v: ResourceOrNonFungible) -> Self { arbitrary() }
+    }
+    impl FromSpecImpl<&str> for RoleKey {
+        open spec fn obeys_from_spec() -> bool { false }
+        open spec fn from_spec(v: &str) -> Self { arbitrary() }
+    }
+
+    // ---- role assignment substates ----------------------------------------------------------------------
+    /// ghost: the SBOR bytes of a ModuleRoleKey are a function of its module and the characters of its key
+    pub uninterp spec fn role_key_bytes(module: ModuleId, name: Seq<char>) -> Seq<u8>;
+    /// ASSUMED: a ModuleRoleKey (an enum and a string, depth 2) always encodes
+    impl ScryptoEncode for ModuleRoleKey {
+        open spec fn sbor_bytes(&self) -> Result<Seq<u8>, EncodeError> { Ok(role_key_bytes(self.module, self.key.key@)) }
+    }
+    impl<V> ScryptoEncode for KeyValueEntrySubstate<V> {
+        uninterp spec fn sbor_bytes(&self) -> Result<Seq<u8>, EncodeError>;
+    }
+    impl<V> Default for KeyValueEntrySubstate<V> {
+        /*@fn radix-engine/src/system/system_substates.rs :: impl<V> Default for KeyValueEntrySubstate<V> :: fn default
+        @*/
+    }
+
+    /// `RoleAssignmentAccessRuleEntryPayload` (generated by declare_native_blueprint_state!): a versioned
+    /// wrapper around an AccessRule; `latest` is the content after upgrading to the latest version
+    #[verifier::external_body]
+    pub struct RoleAssignmentAccessRuleEntryPayload { _x: u8 }
+    impl RoleAssignmentAccessRuleEntryPayload {
+        pub uninterp spec fn latest(self) -> AccessRule;
+        #[verifier::external_body]
+        pub fn fully_update_and_into_latest_version(self) -> (r: AccessRule) ensures r == self.latest()
+        { unimplemented!() }
+    }
+    /// `RoleAssignmentOwnerFieldPayload`: a versioned wrapper around an OwnerRoleSubstate
+    #[verifier::external_body]
+    pub struct RoleAssignmentOwnerFieldPayload { _x: u8 }
+    impl RoleAssignmentOwnerFieldPayload {
+        pub uninterp spec fn latest(self) -> OwnerRoleSubstate;
+        #[verifier::external_body]
+        pub fn fully_update_and_into_latest_version(self) -> (r: OwnerRoleSubstate) ensures r == self.latest()
+        { unimplemented!() }
+    }
+    // derived Clone of the key (String inside): std-generated, not under contract
+    impl Clone for RoleKey {
         #[verifier::external_body]
         fn clone(&self) -> (r: Self) ensures r == *self { unimplemented!() }
     }
@@ -21,9 +203,12 @@ pub mod env {
 pub mod unit {
     use vstd::prelude::*;
     use super::rt::*;
+    use super::string_convert::*;
     use super::auth_env::*;
     use super::auth_env::Decimal;
+    use super::env::*;
 
+    // ---- rule types ------------------------------------------------------------------------------
     /*@item radix-engine-interface/src/blueprints/resource/proof_rule.rs :: enum ResourceOrNonFungible
     @derive Clone
     @*/
@@ -40,6 +225,74 @@ pub mod unit {
     @derive
     @*/
     /*@item radix-engine/src/system/system_modules/auth/auth_module.rs :: enum AuthorizationCheckResult
+    @derive
+    @*/
+    /*@item radix-engine/src/system/system_modules/auth/auth_module.rs :: enum AuthorityListAuthorizationResult
+    @derive
+    @*/
+    /*@item radix-common/src/types/non_fungible_global_id.rs :: enum GlobalCaller
+    @derive
+    @*/
+    // ---- roles -----------------------------------------------------------------------------------
+    /*@item radix-engine-interface/src/blueprints/resource/role_assignment.rs :: const SELF_ROLE
+    @subst <<&str>> => <<&'static str>> why: Verus turns a const into a function and cannot elide the lifetime; `&str` in a const item IS `&'static str`
+    @*/
+    /*@item radix-engine-interface/src/api/object_api.rs :: enum ModuleId
+    @derive Clone, Copy
+    @*/
+    /*@item radix-engine-interface/src/blueprints/resource/role_assignment.rs :: struct RoleKey
+    @derive
+    @*/
+    /*@item radix-engine-interface/src/blueprints/resource/role_assignment.rs :: struct ModuleRoleKey
+    @derive
+    @*/
+    /*@item radix-engine-interface/src/blueprints/resource/role_assignment.rs :: struct RoleList
+    @derive
+    @*/
+    /*@item radix-engine-interface/src/blueprints/resource/role_assignment.rs :: enum OwnerRoleUpdater
+    @derive Clone, Copy
+    @*/
+    /*@item radix-engine-interface/src/blueprints/resource/role_assignment.rs :: struct OwnerRoleEntry
+    @derive
+    @*/
+    /*@item radix-engine/src/object_modules/role_assignment/substates.rs :: struct OwnerRoleSubstate
+    @derive
+    @*/
+    // ---- substates -------------------------------------------------------------------------------
+    /*@item radix-common/src/types/node_and_substate.rs :: struct PartitionNumber
+    @derive Clone, Copy
+    @*/
+    /*@item radix-common/src/types/node_and_substate.rs :: struct PartitionOffset
+    @derive Clone, Copy
+    @*/
+    /*@item radix-common/src/types/node_and_substate.rs :: type FieldKey
+    @*/
+    /*@item radix-common/src/types/node_and_substate.rs :: type MapKey
+    @*/
+    /*@item radix-common/src/types/node_and_substate.rs :: type SortedKey
+    @*/
+    /*@item radix-common/src/types/node_and_substate.rs :: enum SubstateKey
+    @derive
+    @*/
+    /*@item radix-engine-interface/src/types/node_layout.rs :: const ROLE_ASSIGNMENT_BASE_PARTITION
+    @*/
+    /*@item radix-engine-interface/src/types/node_layout.rs :: const ROLE_ASSIGNMENT_FIELDS_PARTITION_OFFSET
+    @*/
+    /*@item radix-engine-interface/src/types/node_layout.rs :: const ROLE_ASSIGNMENT_ROLE_DEF_PARTITION_OFFSET
+    @*/
+    /*@item radix-engine/src/system/system_substates.rs :: enum LockStatus
+    @derive Clone, Copy
+    @*/
+    /*@item radix-engine/src/system/system_substates.rs :: struct FieldSubstateV1
+    @derive
+    @*/
+    /*@item radix-engine/src/system/system_substates.rs :: enum FieldSubstate
+    @derive
+    @*/
+    /*@item radix-engine/src/system/system_substates.rs :: struct KeyValueEntrySubstateV1
+    @derive
+    @*/
+    /*@item radix-engine/src/system/system_substates.rs :: enum KeyValueEntrySubstate
     @derive
     @*/
 
@@ -87,6 +340,53 @@ pub mod unit {
         }
     }
 
+    // ---- which rule protects a role (owner fallback, self role) --------------------------------
+    /// the global-caller rule: `require(global_caller(address))`
+    pub open spec fn self_rule(addr: GlobalAddress) -> AccessRule {
+        AccessRule::Protected(CompositeRequirement::BasicRequirement(BasicRequirement::Require(
+            ResourceOrNonFungible::NonFungible(global_caller_badge_spec(GlobalCaller::GlobalObject(addr))))))
+    }
+    /// role definitions live in partition 6 (= base 5 + offset 1) of the object, keyed by the encoded ModuleRoleKey
+    pub open spec fn role_def_loc(addr: GlobalAddress, module: ModuleId, name: Seq<char>) -> Loc {
+        Loc { node: addr.0, partition: 6, key: SubKey::Map(role_key_bytes(module, name)) }
+    }
+    /// the owner role is field 0 of partition 5 (= base 5 + offset 0)
+    pub open spec fn owner_loc(addr: GlobalAddress) -> Loc {
+        Loc { node: addr.0, partition: 5, key: SubKey::Field(0) }
+    }
+    pub open spec fn role_entry(env: AuthEnv, addr: GlobalAddress, module: ModuleId, name: Seq<char>)
+        -> Result<KeyValueEntrySubstate<RoleAssignmentAccessRuleEntryPayload>, DecodeError> {
+        env.substate(role_def_loc(addr, module, name)).typed::<KeyValueEntrySubstate<RoleAssignmentAccessRuleEntryPayload>>()
+    }
+    pub open spec fn owner_field(env: AuthEnv, addr: GlobalAddress)
+        -> Result<FieldSubstate<RoleAssignmentOwnerFieldPayload>, DecodeError> {
+        env.substate(owner_loc(addr)).typed::<FieldSubstate<RoleAssignmentOwnerFieldPayload>>()
+    }
+    pub open spec fn owner_rule(env: AuthEnv, addr: GlobalAddress) -> AccessRule {
+        owner_field(env, addr)->Ok_0->V1_0.payload.latest().owner_role_entry.rule
+    }
+    /// the documented reserved role name of the object itself
+    pub open spec fn self_role_name() -> Seq<char> { "_self_"@ }
+    /// "_self_" => the global-caller rule of the object itself; otherwise the role's entry if one is
+    /// present, else the owner rule
+    pub open spec fn applicable_rule(env: AuthEnv, addr: GlobalAddress, module: ModuleId, name: Seq<char>) -> AccessRule {
+        if name == self_role_name() {
+            self_rule(addr)
+        } else {
+            match role_entry(env, addr, module, name)->Ok_0->V1_0.value {
+                Some(p) => p.latest(),
+                None => owner_rule(env, addr),
+            }
+        }
+    }
+    /// ASSUMPTION used as precondition: the role-assignment substates that get read are schema-valid
+    /// (decode to their declared payload types) -- enforced by the system layer on every write
+    pub open spec fn role_substates_well_typed(env: AuthEnv, addr: GlobalAddress, module: ModuleId, name: Seq<char>) -> bool {
+        name != self_role_name() ==> (
+            role_entry(env, addr, module, name) is Ok
+            && (role_entry(env, addr, module, name)->Ok_0->V1_0.value is None ==> owner_field(env, addr) is Ok))
+    }
+
     // ---- lemmas ------------------------------------------------------------------------------
     pub proof fn lemma_count_mono(env: AuthEnv, zone: NodeId, rs: Seq<ResourceOrNonFungible>, a: int, b: int)
         requires a <= b
@@ -95,7 +395,6 @@ pub mod unit {
     {
         if a < b {
             lemma_count_mono(env, zone, rs, a, b - 1);
-            if b <= 0 { } else { }
         }
     }
     pub proof fn lemma_any_of(env: AuthEnv, zone: NodeId, rule: CompositeRequirement, k: int)
@@ -105,16 +404,6 @@ pub mod unit {
         let rules = rule->AnyOf_0;
         assert(decreases_to!(rule => rules@[k]));
     }
-    pub proof fn lemma_none_of(env: AuthEnv, zone: NodeId, rule: CompositeRequirement)
-        requires rule is AnyOf, forall|i: int| 0 <= i < rule->AnyOf_0@.len() ==> !sat(env, zone, #[trigger] rule->AnyOf_0@[i])
-        ensures !sat(env, zone, rule)
-    {
-    }
-    pub proof fn lemma_all_of(env: AuthEnv, zone: NodeId, rule: CompositeRequirement)
-        requires rule is AllOf, forall|i: int| 0 <= i < rule->AllOf_0@.len() ==> sat(env, zone, #[trigger] rule->AllOf_0@[i])
-        ensures sat(env, zone, rule)
-    {
-    }
     pub proof fn lemma_not_all_of(env: AuthEnv, zone: NodeId, rule: CompositeRequirement, k: int)
         requires rule is AllOf, 0 <= k < rule->AllOf_0@.len(), !sat(env, zone, rule->AllOf_0@[k])
         ensures !sat(env, zone, rule)
@@ -123,93 +412,157 @@ pub mod unit {
         assert(decreases_to!(rule => rules@[k]));
     }
 
-    /// ASSUMED contracts of the two callees that walk the auth zone substates (not under contract
-    /// here: they go through `impl Fn` closures and kernel substate reads).  Signatures identical
-    /// to the real private functions of `impl Authorization`.
-    impl Authorization {
-        #[verifier::external_body]
-        pub fn auth_zone_stack_matches_rule<
-            Y: SystemObjectApi<RuntimeError> + KernelSubstateApi<L>,
-            L: Default,
-        >(
-            auth_zone: &NodeId,
-            resource_rule: &ResourceOrNonFungible,
-            api: &mut Y,
-        ) -> (ret: Result<bool, RuntimeError>)
-            ensures
-                ret matches Ok(b) ==> b == req_sat(old(api).env(), *auth_zone, *resource_rule),
-                final(api).env() == old(api).env(),
-        { unimplemented!() }
-
-        #[verifier::external_body]
-        pub fn auth_zone_stack_has_amount<
-            Y: SystemObjectApi<RuntimeError> + KernelSubstateApi<L>,
-            L: Default,
-        >(
-            auth_zone: &NodeId,
-            resource: &ResourceAddress,
-            amount: Decimal,
-            api: &mut Y,
-        ) -> (ret: Result<bool, RuntimeError>)
-            ensures
-                ret matches Ok(b) ==> b == old(api).env().shows_amount(*auth_zone, *resource, amount),
-                final(api).env() == old(api).env(),
-        { unimplemented!() }
+    // ---- conversions and constructors the self-role rule and the role key are built from ------
+    impl<T> From<T> for GlobalCaller
+    where
+        T: Into<GlobalAddress>,
+    {
+        /*@fn radix-common/src/types/non_fungible_global_id.rs :: impl<T> From<T> for GlobalCaller :: fn from
+        @sig
+            ensures exists|a: GlobalAddress| call_ensures(T::into, (value,), a) && ret == GlobalCaller::GlobalObject(a)
+        @*/
+    }
+    impl From<ResourceOrNonFungible> for CompositeRequirement {
+        /*@fn radix-engine-interface/src/blueprints/resource/proof_rule.rs :: impl From<ResourceOrNonFungible> for CompositeRequirement :: fn from
+        @sig
+            ensures ret == CompositeRequirement::BasicRequirement(BasicRequirement::Require(resource_or_non_fungible))
+        @*/
+    }
+    /*@fn radix-engine-interface/src/blueprints/resource/proof_rule.rs :: fn global_caller
+    @subst <<global_caller: impl>> => <<caller: impl>> x1 why: Verus resolves the function's own name inside its contract; a parameter of the same name shadows it (E0618). Parameter renamed (declaration).
+    @subst <<global_caller_badge(global_caller)>> => <<global_caller_badge(caller)>> x1 why: the single use of the renamed parameter
+    @sig
+        ensures exists|g: GlobalCaller| call_ensures(<_ as Into<GlobalCaller>>::into, (caller,), g)
+            && ret == ResourceOrNonFungible::NonFungible(global_caller_badge_spec(g))
+    @*/
+    /*@fn radix-engine-interface/src/blueprints/resource/proof_rule.rs :: fn require
+    @sig
+        ensures call_ensures(T::into, (required,), ret)
+    @*/
+    impl PartitionNumber {
+        /*@fn radix-common/src/types/node_and_substate.rs :: impl PartitionNumber :: fn at_offset
+        @sig
+            ensures self.0 + offset.0 <= 255 ==> ret == Some(PartitionNumber((self.0 + offset.0) as u8)),
+                    self.0 + offset.0 > 255 ==> ret is None,
+        @*/
+    }
+    impl From<&str> for RoleKey {
+        /*@fn radix-engine-interface/src/blueprints/resource/role_assignment.rs :: impl From<&str> for RoleKey :: fn from
+        @sig
+            ensures ret.key@ == s@
+        @*/
+    }
+    impl RoleKey {
+        /*@fn radix-engine-interface/src/blueprints/resource/role_assignment.rs :: impl RoleKey :: fn new
+        @sig
+            ensures call_ensures(S::into, (key,), ret.key)
+        @*/
+    }
+    impl ModuleRoleKey {
+        /*@fn radix-engine-interface/src/blueprints/resource/role_assignment.rs :: impl ModuleRoleKey :: fn new
+        @sig
+            ensures ret.module == module, call_ensures(K::into, (key,), ret.key)
+        @*/
+    }
+    impl<V> KeyValueEntrySubstate<V> {
+        /*@fn radix-engine/src/system/system_substates.rs :: impl<V> KeyValueEntrySubstate<V> :: fn into_value
+        @sig
+            ensures ret == self->V1_0.value
+        @*/
+    }
+    impl<V> FieldSubstate<V> {
+        /*@fn radix-engine/src/system/system_substates.rs :: impl<V> FieldSubstate<V> :: fn into_payload
+        @sig
+            ensures ret == self->V1_0.payload
+        @*/
     }
 
     impl Authorization {
         /*@fn radix-engine/src/system/system_modules/auth/authorization.rs :: impl Authorization :: fn verify_proof_rule
         @sig
             ensures
-                ret matches Ok(b) ==> b == basic_sat(old(api).env(), *auth_zone, *requirement_rule),
-                final(api).env() == old(api).env(),
+                ok_or_fault(old(api).st(), final(api).st(), ret),
+                ret matches Ok(b) ==> b == basic_sat(old(api).st().env, *auth_zone, *requirement_rule),
         @loop 1 iter it
             invariant
-                api.env() == old(api).env(),
+                api.st() == old(api).st(),
                 *requirement_rule is AllOf, requirement_rule->AllOf_0 == *resources,
-                forall|i: int| 0 <= i < it.index@ ==> req_sat(old(api).env(), *auth_zone, #[trigger] resources@[i]),
+                forall|i: int| 0 <= i < it.index@ ==> req_sat(old(api).st().env, *auth_zone, #[trigger] resources@[i]),
         @loop 2 iter it
             invariant
-                api.env() == old(api).env(),
+                api.st() == old(api).st(),
                 *requirement_rule is AnyOf, requirement_rule->AnyOf_0 == *resources,
-                forall|i: int| 0 <= i < it.index@ ==> !req_sat(old(api).env(), *auth_zone, #[trigger] resources@[i]),
+                forall|i: int| 0 <= i < it.index@ ==> !req_sat(old(api).st().env, *auth_zone, #[trigger] resources@[i]),
         @loop 3 iter it
             invariant
-                api.env() == old(api).env(),
+                api.st() == old(api).st(),
                 *requirement_rule is CountOf, requirement_rule->CountOf_0 == *count, requirement_rule->CountOf_1 == *resources,
                 left >= 1,
-                left as nat + count_upto(old(api).env(), *auth_zone, resources@, it.index@ as int) == *count as nat,
+                left as nat + count_upto(old(api).st().env, *auth_zone, resources@, it.index@ as int) == *count as nat,
         @before <<left -= 1>> #1
-            proof { lemma_count_mono(old(api).env(), *auth_zone, resources@, it.index@ + 1, resources@.len() as int); }
+            proof { lemma_count_mono(old(api).st().env, *auth_zone, resources@, it.index@ + 1, resources@.len() as int); }
         @*/
 
         /*@fn radix-engine/src/system/system_modules/auth/authorization.rs :: impl Authorization :: fn verify_auth_rule
         @sig
             ensures
-                ret matches Ok(res) ==> (res is Authorized <==> sat(old(api).env(), *auth_zone, *requirement_rule)),
-                final(api).env() == old(api).env(),
+                ok_or_fault(old(api).st(), final(api).st(), ret),
+                ret matches Ok(res) ==> (res is Authorized <==> sat(old(api).st().env, *auth_zone, *requirement_rule)),
             decreases requirement_rule
         @loop 1 iter it
             invariant
-                api.env() == old(api).env(),
+                api.st() == old(api).st(),
                 *requirement_rule is AnyOf, requirement_rule->AnyOf_0 == *rules,
-                forall|i: int| 0 <= i < it.index@ ==> !sat(old(api).env(), *auth_zone, #[trigger] rules@[i]),
+                forall|i: int| 0 <= i < it.index@ ==> !sat(old(api).st().env, *auth_zone, #[trigger] rules@[i]),
         @after <<Self::verify_auth_rule(auth_zone, r, api)?>> #1
-            proof { if rtn is Authorized { lemma_any_of(old(api).env(), *auth_zone, *requirement_rule, it.index@ as int); } }
+            proof { if rtn is Authorized { lemma_any_of(old(api).st().env, *auth_zone, *requirement_rule, it.index@ as int); } }
         @loop 2 iter it
             invariant
-                api.env() == old(api).env(),
+                api.st() == old(api).st(),
                 *requirement_rule is AllOf, requirement_rule->AllOf_0 == *rules,
-                forall|i: int| 0 <= i < it.index@ ==> sat(old(api).env(), *auth_zone, #[trigger] rules@[i]),
+                forall|i: int| 0 <= i < it.index@ ==> sat(old(api).st().env, *auth_zone, #[trigger] rules@[i]),
         @after <<Self::verify_auth_rule(auth_zone, r, api)?>> #2
-            proof { if !(rtn is Authorized) { lemma_not_all_of(old(api).env(), *auth_zone, *requirement_rule, it.index@ as int); } }
+            proof { if !(rtn is Authorized) { lemma_not_all_of(old(api).st().env, *auth_zone, *requirement_rule, it.index@ as int); } }
         @*/
 
         /*@fn radix-engine/src/system/system_modules/auth/authorization.rs :: impl Authorization :: fn check_authorization_against_access_rule
         @sig
             ensures
-                ret matches Ok(res) ==> (res is Authorized <==> access_sat(old(api).env(), *auth_zone, *rule)),
-                final(api).env() == old(api).env(),
+                ok_or_fault(old(api).st(), final(api).st(), ret),
+                ret matches Ok(res) ==> (res is Authorized <==> access_sat(old(api).st().env, *auth_zone, *rule)),
+        @*/
+
+        /*@fn radix-engine/src/system/system_modules/auth/authorization.rs :: impl Authorization :: fn check_authorization_against_role_key_internal
+        @sig
+            requires
+                role_substates_well_typed(old(api).st().env, *role_assignment_of, key.module, key.key.key@),
+            ensures
+                ok_or_fault(old(api).st(), final(api).st(), ret),
+                ret matches Ok(res) ==> (res is Authorized <==> access_sat(old(api).st().env, *auth_zone,
+                    applicable_rule(old(api).st().env, *role_assignment_of, key.module, key.key.key@))),
+        @after <<api.kernel_close_substate(handle)?>> #1
+            proof { assert(api.st().handles =~= old(api).st().handles); }
+        @after <<api.kernel_close_substate(handle)?>> #2
+            proof { assert(api.st().handles =~= old(api).st().handles); }
+        @*/
+
+        /*@fn radix-engine/src/system/system_modules/auth/authorization.rs :: impl Authorization :: fn check_authorization_against_role_list
+        @sig
+            requires
+                forall|i: int| 0 <= i < role_list.list@.len() ==>
+                    role_substates_well_typed(old(api).st().env, *role_assignment_of, module, (#[trigger] role_list.list@[i]).key@),
+            ensures
+                ok_or_fault(old(api).st(), final(api).st(), ret),
+                ret matches Ok(res) ==> (res is Authorized <==> exists|i: int| 0 <= i < role_list.list@.len()
+                    && access_sat(old(api).st().env, *auth_zone,
+                        applicable_rule(old(api).st().env, *role_assignment_of, module, (#[trigger] role_list.list@[i]).key@))),
+        @loop 1 iter it
+            invariant
+                api.st() == old(api).st(),
+                forall|i: int| 0 <= i < role_list.list@.len() ==>
+                    role_substates_well_typed(old(api).st().env, *role_assignment_of, module, (#[trigger] role_list.list@[i]).key@),
+                forall|i: int| 0 <= i < it.index@ ==> !access_sat(old(api).st().env, *auth_zone,
+                        applicable_rule(old(api).st().env, *role_assignment_of, module, (#[trigger] role_list.list@[i]).key@)),
         @*/
     }
 }
